@@ -513,6 +513,179 @@ type pegOp struct {
 	H    bool   `json:"h,omitempty"`    // params: EnableEVMHook
 	// batch: ONE Ethereum transaction signed by A to the script contract, which makes these calls in order
 	Calls []pegCall `json:"calls,omitempty"`
+	// how the STRING fields of the message are spelled (0 = as the chain prints them; see pegSpellHex,
+	// pegSpellBech, pegSpellToken): SC the contract address / token identifier (ce, toggle, ibcsend),
+	// SA the sender (cc, send, ibcsend: bech32; ce: hex), SB the receiver (cc: hex; ce, send, recv: bech32;
+	// ack, timeout: the packet's sender, the refunded account B)
+	SC int `json:"sc,omitempty"`
+	SA int `json:"sa,omitempty"`
+	SB int `json:"sb,omitempty"`
+}
+
+// ---------------------------------------------------------------- spellings
+// Equivalent spellings of the same address / token identifier.  The numbers are the ones of the Coq model
+// (PegModel.v, record spell).
+var (
+	pegHexNames   = []string{"eip55", "lower", "upper", "wrong-checksum", "lower-no0x", "eip55-no0x", "0X-upper", "not-an-address"}
+	pegBechNames  = []string{"lower", "upper", "other-prefix", "hex", "mixed-case"}
+	pegTokenNames = []string{"denom", "eip55", "lower", "upper", "wrong-checksum", "lower-no0x", "eip55-no0x", "0X-upper", "not-an-address", "denom-other-case"}
+)
+
+func pegNorm(k, n int) int { // any out-of-range number means the last (refused) spelling of the family
+	if k < 0 || k >= n {
+		return n - 1
+	}
+	return k
+}
+
+func swapCase(s string) string {
+	b := []byte(s)
+	for i, c := range b {
+		switch {
+		case c >= 'a' && c <= 'z':
+			b[i] = c - 'a' + 'A'
+		case c >= 'A' && c <= 'Z':
+			b[i] = c - 'A' + 'a'
+		}
+	}
+	return string(b)
+}
+
+// pegSpellHex: a 20-byte address as a hex string.  common.IsHexAddress accepts 40 hex digits in any letter
+// case with an optional 0x / 0X; common.HexToAddress resolves all of them to the same address.
+func pegSpellHex(a common.Address, k int) string {
+	h := a.Hex() // EIP-55 with 0x
+	body := h[2:]
+	switch pegNorm(k, len(pegHexNames)) {
+	case 0:
+		return h
+	case 1:
+		return "0x" + strings.ToLower(body)
+	case 2:
+		return "0x" + strings.ToUpper(body)
+	case 3:
+		return "0x" + swapCase(body)
+	case 4:
+		return strings.ToLower(body)
+	case 5:
+		return body
+	case 6:
+		return "0X" + strings.ToUpper(body)
+	}
+	return h[:40] // 38 hex digits
+}
+
+// pegSpellBech: an account address as a bech32 string.  BIP-173: all lower case or all upper case.
+func pegSpellBech(a sdk.AccAddress, k int) string {
+	lo := a.String()
+	switch pegNorm(k, len(pegBechNames)) {
+	case 0:
+		return lo
+	case 1:
+		return strings.ToUpper(lo)
+	case 2:
+		return pegRemoteBech32(a)
+	case 3:
+		return common.BytesToAddress(a.Bytes()).Hex()
+	}
+	return strings.ToUpper(lo[:8]) + lo[8:]
+}
+
+// pegSpellToken: the `token` of ToggleConversion / the TokenPair query: the pair's denomination or its
+// contract address in any hex spelling.  Denominations are case sensitive: the last spelling is ANOTHER
+// (unregistered) denomination.
+func pegSpellToken(p *pegPair, k int) string {
+	k = pegNorm(k, len(pegTokenNames))
+	switch {
+	case k == 0:
+		return p.Denom
+	case k <= len(pegHexNames):
+		return pegSpellHex(p.Contract, k-1)
+	}
+	i := strings.Index(p.Denom, "/")
+	if alt := p.Denom[:i+1] + strings.ToLower(p.Denom[i+1:]); alt != p.Denom {
+		return alt
+	}
+	return p.Denom[:i+1] + strings.ToUpper(p.Denom[i+1:])
+}
+
+// spelled: does the op carry a string field in a non-canonical spelling?
+func (op pegOp) spelled() bool { return op.SC != 0 || op.SA != 0 || op.SB != 0 }
+
+// pegSpellFields: the string fields of an op: family ("hex", "bech", "token") of SC, SA, SB ("" = no such field)
+func pegSpellFields(o string) (c, a, b string) {
+	switch o {
+	case "cc":
+		return "", "bech", "hex"
+	case "ce":
+		return "hex", "hex", "bech"
+	case "send":
+		return "", "bech", "bech"
+	case "ibcsend":
+		return "token", "bech", ""
+	case "toggle":
+		return "token", "", ""
+	case "recv", "ack", "timeout":
+		return "", "", "bech"
+	}
+	return "", "", ""
+}
+
+func pegSpellName(fam string, k int) string {
+	switch fam {
+	case "hex":
+		return pegHexNames[pegNorm(k, len(pegHexNames))]
+	case "bech":
+		return pegBechNames[pegNorm(k, len(pegBechNames))]
+	case "token":
+		return pegTokenNames[pegNorm(k, len(pegTokenNames))]
+	}
+	return ""
+}
+
+// canonicalSpelling: the same op with every string field as the chain prints it
+func (op pegOp) canonicalSpelling() pegOp {
+	op.SC, op.SA, op.SB = 0, 0, 0
+	return op
+}
+
+// normSpelling: spellings of fields the op does not have are dropped, out-of-range numbers are mapped to
+// the family's last spelling (what apply does with them)
+func (op pegOp) normSpelling() pegOp {
+	c, a, b := pegSpellFields(op.Op)
+	n := func(fam string, k int) int {
+		switch fam {
+		case "hex":
+			return pegNorm(k, len(pegHexNames))
+		case "bech":
+			return pegNorm(k, len(pegBechNames))
+		case "token":
+			return pegNorm(k, len(pegTokenNames))
+		}
+		return 0
+	}
+	op.SC, op.SA, op.SB = n(c, op.SC), n(a, op.SA), n(b, op.SB)
+	return op
+}
+
+// pegSpellingSurelyAccepted: spellings about which there is no doubt that the chain has to take them for
+// the same address: every hex spelling of 40 digits (letter case, checksum, 0x / 0X / no prefix; go-ethereum
+// IsHexAddress / HexToAddress) and the lower-case bech32 string; the pair's denomination or its contract
+// address for a token.  (Upper-case bech32 and foreign prefixes are left to the correspondence.)
+func (op pegOp) pegSpellingSurelyAccepted() bool {
+	c, a, b := pegSpellFields(op.Op)
+	ok := func(fam string, k int) bool {
+		switch fam {
+		case "hex":
+			return k >= 0 && k <= 6
+		case "bech":
+			return k == 0
+		case "token":
+			return k >= 0 && k <= 7
+		}
+		return true
+	}
+	return ok(c, op.SC) && ok(a, op.SA) && ok(b, op.SB)
 }
 
 // pegCall: one CALL of the script contract: token.transfer(to, x).
@@ -637,7 +810,19 @@ func (e *pegEnv) snapshot(p *pegPair) pegSnap {
 	}
 	// the three indexes must agree
 	if s.Reg != ek.IsERC20Registered(e.Ctx, p.Contract) || s.Reg != ek.IsDenomRegistered(e.Ctx, p.Denom) {
-		s.idxNote = "pair indexes disagree;"
+		s.idxNote += "pair indexes disagree;"
+	}
+	// the TokenPair query answers the same whatever way the token is identified: by the denomination or by
+	// the contract address in any hex spelling (not found for all of them when the pair is not registered)
+	for k := 0; k <= 7; k++ {
+		tok := pegSpellToken(p, k)
+		qr, err := ek.TokenPair(sdk.WrapSDKContext(e.Ctx), &types.QueryTokenPairRequest{Token: tok})
+		switch {
+		case s.Reg && (err != nil || qr == nil || qr.TokenPair.Denom != p.Denom || qr.TokenPair.GetERC20Contract() != p.Contract || qr.TokenPair.Enabled != s.En):
+			s.idxNote += fmt.Sprintf("TokenPair query by %s (%s) does not answer the registered pair (%v);", pegTokenNames[k], tok, err)
+		case !s.Reg && err == nil:
+			s.idxNote += fmt.Sprintf("TokenPair query by %s (%s) answers a pair that is not registered;", pegTokenNames[k], tok)
+		}
 	}
 	for a := 0; a < pegNA; a++ {
 		s.Coin[a] = e.App.BankKeeper.GetBalance(e.Ctx, pegAcc(a), p.Denom).Amount.BigInt()
@@ -765,6 +950,7 @@ func (e *pegEnv) credit(ctx sdk.Context, p *pegPair, mint bool, esc, to int, x *
 
 // apply runs one op on the real application; the result code is what the model predicts.
 func (e *pegEnv) apply(p *pegPair, op pegOp) (int, string) {
+	op = op.normSpelling()
 	x := pegAmt(op.X)
 	if x.Sign() < 0 || x.Cmp(maxU256) > 0 {
 		return 9, "amount outside sdk.Int/uint256"
@@ -799,20 +985,28 @@ func (e *pegEnv) apply(p *pegPair, op pegOp) (int, string) {
 	case "rawsend":
 		return flat(e.cached(func(ctx sdk.Context) error { return e.credit(ctx, p, false, op.A, op.B, x) }))
 	case "cc":
-		_, err := e.runMsg(types.NewMsgConvertCoin(pegCoin(p.Denom, x), pegAddr[op.B], pegAcc(op.A)))
+		// = types.NewMsgConvertCoin(coin, receiver, sender) when SA = SB = 0
+		_, err := e.runMsg(&types.MsgConvertCoin{Coin: pegCoin(p.Denom, x), Receiver: pegSpellHex(pegAddr[op.B], op.SB), Sender: pegSpellBech(pegAcc(op.A), op.SA)})
 		return code(err)
 	case "ce":
-		_, err := e.runMsg(types.NewMsgConvertERC20(sdkmath.NewIntFromBigInt(x), pegAcc(op.B), p.Contract, pegAddr[op.A]))
+		// = types.NewMsgConvertERC20(amount, receiver, contract, sender) when SC = SA = SB = 0
+		_, err := e.runMsg(&types.MsgConvertERC20{ContractAddress: pegSpellHex(p.Contract, op.SC), Amount: sdkmath.NewIntFromBigInt(x),
+			Receiver: pegSpellBech(pegAcc(op.B), op.SB), Sender: pegSpellHex(pegAddr[op.A], op.SA)})
 		return code(err)
 	case "send":
-		_, err := e.runMsg(&banktypes.MsgSend{FromAddress: pegAcc(op.A).String(), ToAddress: pegAcc(op.B).String(), Amount: sdk.Coins{pegCoin(p.Denom, x)}})
+		_, err := e.runMsg(&banktypes.MsgSend{FromAddress: pegSpellBech(pegAcc(op.A), op.SA), ToAddress: pegSpellBech(pegAcc(op.B), op.SB), Amount: sdk.Coins{pegCoin(p.Denom, x)}})
 		return code(err)
 	case "ibcsend":
-		_, err := e.runMsg(transfertypes.NewMsgTransfer(transfertypes.PortID, pegDstChannel, pegCoin(p.Denom, x), pegAcc(op.A).String(),
+		// the transfer wrapper takes the pair's denomination, erc20/<contract> or the bare contract address
+		denom := p.Denom
+		if op.SC != 0 {
+			denom = types.ModuleName + "/" + pegSpellToken(p, op.SC)
+		}
+		_, err := e.runMsg(transfertypes.NewMsgTransfer(transfertypes.PortID, pegDstChannel, pegCoin(denom, x), pegSpellBech(pegAcc(op.A), op.SA),
 			pegRemoteBech32(pegAcc(pH3)), clienttypes.NewHeight(0, 1000), 0, ""))
 		return flat(err)
 	case "toggle":
-		_, err := ek.ToggleConversion(e.Ctx, p.Denom)
+		_, err := ek.ToggleConversion(e.Ctx, pegSpellToken(p, op.SC))
 		return code(err)
 	case "params":
 		return code(ek.SetParams(e.Ctx, types.Params{EnableErc20: op.E, EnableEVMHook: op.H}))
@@ -883,7 +1077,7 @@ func (e *pegEnv) apply(p *pegPair, op pegOp) (int, string) {
 		if !p.OwnerMod {
 			rawDenom = transfertypes.GetDenomPrefix(transfertypes.PortID, pegSrcChannel) + p.Denom
 		}
-		data := transfertypes.NewFungibleTokenPacketData(rawDenom, x.String(), e.pegRemoteSender(op.S), pegAcc(op.B).String(), "")
+		data := transfertypes.NewFungibleTokenPacketData(rawDenom, x.String(), e.pegRemoteSender(op.S), pegSpellBech(pegAcc(op.B), op.SB), "")
 		return flat(e.cached(func(ctx sdk.Context) error {
 			if err := e.credit(ctx, p, op.F, op.A, op.B, x); err != nil {
 				return err
@@ -899,7 +1093,7 @@ func (e *pegEnv) apply(p *pegPair, op pegOp) (int, string) {
 		if !p.OwnerMod {
 			rawDenom = p.Denom
 		}
-		data := transfertypes.NewFungibleTokenPacketData(rawDenom, x.String(), pegAcc(op.B).String(), pegRemoteBech32(pegAcc(pH3)), "")
+		data := transfertypes.NewFungibleTokenPacketData(rawDenom, x.String(), pegSpellBech(pegAcc(op.B), op.SB), pegRemoteBech32(pegAcc(pH3)), "")
 		return flat(e.cached(func(ctx sdk.Context) error {
 			if op.B == pM {
 				return errPegRefused
@@ -1038,6 +1232,15 @@ func (e *pegEnv) coqMCase(p *pegPair, op pegOp, res int, pre, post *pegSnap) str
 	}
 	return fmt.Sprintf("(mkmcase %s\n     %s\n     %d%%N %s %d%%N\n     %s\n     %s)", coqBool(pre.Erc20On && pre.HookOn), e.coqWorld(p, withOwn, pre),
 		op.A, coqList(calls), res, logs, e.coqWorld(p, withOwn, post))
+}
+
+// coqSpell: the spelling of the op's string fields (Coq: spell)
+func (op pegOp) coqSpell() string {
+	op = op.normSpelling()
+	if !op.spelled() {
+		return "csp"
+	}
+	return fmt.Sprintf("mkspell %d%%N %d%%N %d%%N", op.SC, op.SA, op.SB)
 }
 
 func (op pegOp) coq() string {
@@ -1205,6 +1408,9 @@ func pegOracle(e *pegEnv, p *pegPair, op pegOp, res int, pre, post *pegSnap, tr 
 				return fmt.Sprintf("the transaction's calls were %s (none on this pair's token), but this pair changed: %s", pegCallsStr(op.Calls), d)
 			}
 		}
+	}
+	if post.idxNote != "" {
+		return "registry: " + post.idxNote
 	}
 	if post.Others != expOthers {
 		return "frame: another pair or denomination changed: " + pre.Others + " -> " + post.Others + ", the property demands " + expOthers
@@ -1520,6 +1726,49 @@ func pegForeignEffect(e *pegEnv, pre *pegSnap, op pegOp) *[pegNBy]pegBy {
 	return &by
 }
 
+// pegTwin: what the same message in canonical spelling did on a copy of the same state
+type pegTwin struct {
+	res  int
+	err  string
+	post pegSnap
+}
+
+// pegSpellingOracle: an address or a token identifier is the same input however it is written.  A message
+// in another spelling that the chain ACCEPTS must do exactly what the canonical spelling does on the same
+// state: accepted only if that one is accepted, with the same effect on every observable (so every check
+// the property relies on - post-condition balances, the unexpected-Approval monitor, the registry lookups -
+// is applied to it as well); and a spelling that is beyond doubt the same address (hex letter case, checksum
+// and prefix; the pair's denomination or contract address) must not be refused where the canonical one
+// converts.  A refused message has no effect (clause A of pegOracle).
+func pegSpellingOracle(op pegOp, res int, errStr string, post *pegSnap, twin *pegTwin) string {
+	if twin == nil {
+		return ""
+	}
+	fc, fa, fb := pegSpellFields(op.Op)
+	how := []string{}
+	for _, f := range []struct {
+		field, fam string
+		k          int
+	}{{"token/contract", fc, op.SC}, {"sender", fa, op.SA}, {"receiver", fb, op.SB}} {
+		if f.fam != "" && f.k != 0 {
+			how = append(how, fmt.Sprintf("%s spelled %s-%s", f.field, f.fam, pegSpellName(f.fam, f.k)))
+		}
+	}
+	desc := fmt.Sprintf("%s with %s", op.Op, strings.Join(how, ", "))
+	switch {
+	case res == 0 && twin.res != 0:
+		return fmt.Sprintf("spelling: %s is ACCEPTED, but the same message with every address spelled as the chain prints it is refused on the same state (code %d: %s): the outcome of a conversion depends on the spelling of an address",
+			desc, twin.res, twin.err)
+	case res == 0:
+		if d := twin.post.diff(post); d != "" {
+			return fmt.Sprintf("spelling: %s and the same message in canonical spelling are both accepted on the same state but differ in their effect: %s (canonical -> this spelling)", desc, d)
+		}
+	case twin.res == 0 && op.pegSpellingSurelyAccepted():
+		return fmt.Sprintf("spelling: %s is refused (code %d: %s), but the same message with every address spelled as the chain prints it succeeds on the same state, and this spelling denotes the same address", desc, res, errStr)
+	}
+	return ""
+}
+
 // pegClass: known-finding classes as predicates on the input's shape.
 func pegClass(p *pegPair, op pegOp, tr *pegTrack) string {
 	if p.OwnerMod {
@@ -1628,10 +1877,19 @@ func pegRunCase(id string, in pegInput) Case {
 	tags := map[string]bool{"kind:" + in.Kind: true}
 	nOK := 0
 	for i, op := range in.Ops {
+		op = op.normSpelling()
+		// a message whose string fields are not spelled the way the chain prints them: the SAME message in
+		// canonical spelling is run first, on a copy of the state that is thrown away
+		var twin *pegTwin
+		if op.spelled() {
+			f := e.fork()
+			r2, err2 := f.apply(p, op.canonicalSpelling())
+			twin = &pegTwin{res: r2, err: err2, post: f.snapshot(p)}
+		}
 		res, errStr := e.apply(p, op)
 		post := e.snapshot(p)
 		obsAll = append(obsAll, post.obs(res, errStr))
-		steps = append(steps, fmt.Sprintf("(%s, %s)", op.coq(), post.coq(res)))
+		steps = append(steps, fmt.Sprintf("(%s, %s, %s)", op.coqSpell(), op.coq(), post.coq(res)))
 		if op.Op == "batch" && pegBatchValid(op) {
 			if m := e.coqMCase(p, op, res, &pre, &post); m != "" {
 				mcases = append(mcases, m)
@@ -1642,6 +1900,24 @@ func pegRunCase(id string, in pegInput) Case {
 			name = "eth-" + op.Call
 		}
 		tags[fmt.Sprintf("%s:%d", name, res)] = true
+		if op.spelled() {
+			fc, fa, fb := pegSpellFields(op.Op)
+			acc := "failed"
+			if res == 0 {
+				acc = "ok"
+			}
+			for _, f := range []struct {
+				field, fam string
+				k          int
+			}{{"token/contract", fc, op.SC}, {"sender", fa, op.SA}, {"receiver", fb, op.SB}} {
+				if f.fam != "" && f.k != 0 {
+					tags[fmt.Sprintf("spelling:%s:%s:%s-%s:%s", op.Op, f.field, f.fam, pegSpellName(f.fam, f.k), acc)] = true
+				}
+			}
+			if !tr.honestNow(p.Kind) {
+				tags["spelling:on-a-misbehaving-token:"+op.Op] = true
+			}
+		}
 		if op.Op == "batch" && res == 0 {
 			for _, t := range pegBatchShape(op.Calls) {
 				tags[t] = true
@@ -1676,7 +1952,11 @@ func pegRunCase(id string, in pegInput) Case {
 		}
 		// the first failure counts; a failure inside a known-finding class does not hide a later one outside it
 		if oracleMsg == "" || class != "" {
-			if m := pegOracle(e, p, op, res, &pre, &post, tr); m != "" {
+			m := pegOracle(e, p, op, res, &pre, &post, tr)
+			if m == "" {
+				m = pegSpellingOracle(op, res, errStr, &post, twin)
+			}
+			if m != "" {
 				if cl := pegClass(p, op, tr); oracleMsg == "" || cl == "" {
 					oracleMsg = fmt.Sprintf("step %d (%s on a %s pair): %s", i, name, in.Kind, m)
 					class = cl
@@ -1760,6 +2040,80 @@ func pegGen(r *Rng, nops int) pegInput {
 	}
 	maxBits := []int{12, 40, 90, 200}[r.Intn(4)]
 	push := func(op pegOp) { in.Ops = append(in.Ops, op) }
+	// the spelling of the string fields: its own stream, split off without advancing the main one (the
+	// histories stay what they were); mostly canonical, more often another spelling when the token misbehaves
+	sr := &Rng{s: r.s ^ 0x5be11a9d7c3f0e21}
+	spellChance := 22
+	if kind != "coin" && kind != "honest" {
+		spellChance = 34
+	}
+	spell := func(op *pegOp) {
+		fc, fa, fb := pegSpellFields(op.Op)
+		if (fc == "" && fa == "" && fb == "") || !sr.Chance(spellChance) {
+			return
+		}
+		pick := func(fam string, always bool) int {
+			if fam == "" || (!always && !sr.Chance(60)) {
+				return 0
+			}
+			switch fam {
+			case "hex":
+				if sr.Chance(9) {
+					return 7 // not an address
+				}
+				return 1 + sr.Intn(6)
+			case "token":
+				if sr.Chance(10) {
+					return 8 + sr.Intn(2)
+				}
+				return 1 + sr.Intn(7)
+			}
+			// bech32: upper case (accepted by the messages), another prefix (accepted for a received packet), hex, mixed case
+			j := sr.Intn(20)
+			if op.Op == "recv" {
+				j = (j + 9) % 20
+			}
+			switch {
+			case j < 13:
+				return 1
+			case j < 17:
+				return 2
+			case j < 19:
+				return 3
+			}
+			return 4
+		}
+		op.SC, op.SA, op.SB = pick(fc, false), pick(fa, false), pick(fb, false)
+		if !op.spelled() {
+			switch {
+			case fc != "":
+				op.SC = pick(fc, true)
+			case fb != "":
+				op.SB = pick(fb, true)
+			default:
+				op.SA = pick(fa, true)
+			}
+		}
+	}
+	// whether the chain's parsing will refuse the op for its spelling (only steers the shadow)
+	spellRefused := func(op pegOp) bool {
+		fc, fa, fb := pegSpellFields(op.Op)
+		bad := func(fam string, k int) bool {
+			switch fam {
+			case "hex":
+				return k >= 7
+			case "token":
+				return k >= 8
+			case "bech":
+				if op.Op == "recv" {
+					return k != 0 && k != 2
+				}
+				return k >= 2
+			}
+			return false
+		}
+		return bad(fc, op.SC) || bad(fa, op.SA) || bad(fb, op.SB)
+	}
 	// initial endowments
 	for _, h := range holders {
 		if !r.Chance(75) {
@@ -1924,8 +2278,11 @@ func pegGen(r *Rng, nops int) pegInput {
 				if pegAmt(f.X).Cmp(maxU256) > 0 {
 					f.X = maxU256.String()
 				}
+				spell(&f)
 				push(f)
-				shadow(f)
+				if !spellRefused(f) {
+					shadow(f)
+				}
 			}
 			n := 2 + r.Intn(3)
 			if r.Chance(10) {
@@ -2094,8 +2451,13 @@ func pegGen(r *Rng, nops int) pegInput {
 		if op.X != "" && pegAmt(op.X).Cmp(maxU256) > 0 {
 			op.X = maxU256.String()
 		}
+		spell(&op)
 		push(op)
-		shadow(op)
+		if !spellRefused(op) {
+			shadow(op)
+		} else if op.Op == "toggle" {
+			enabled = !enabled // the refused toggle did not happen
+		}
 	}
 	return in
 }
